@@ -20,7 +20,8 @@ import time
 
 VERIF = os.path.dirname(os.path.dirname(os.path.abspath(__file__)))
 REPO = os.environ.get("VP_REPO", "/repo")
-WORK = os.path.join(VERIF, ".work")
+WORK = os.environ.get("VP_WORK") or os.path.join(VERIF, ".work")
+SCRATCH = bool(os.environ.get("VP_WORK"))  # scratch run (mutant / experiment): evidence and replays go under VP_WORK
 COMMON = os.path.join(VERIF, "harness", "common")
 STUBS = os.path.join(VERIF, "harness", "stubs")
 
@@ -36,13 +37,13 @@ CBMC_BASE = ["--unwinding-assertions", "--drop-unused-functions", "--no-malloc-m
 
 def cfg_dir():
     """Directory holding the generated ares_config.h / ares_build.h."""
-    d = os.path.join(WORK, "cfg")
+    d = os.path.join(VERIF, ".work", "cfg")
     if os.path.exists(os.path.join(d, "ares_config.h")) and os.path.exists(os.path.join(d, "ares_build.h")):
         return d
     b = os.path.join(REPO, "_build")
     if os.path.exists(os.path.join(b, "ares_config.h")) and os.path.exists(os.path.join(b, "ares_build.h")):
         return b
-    os.makedirs(WORK, exist_ok=True)
+    os.makedirs(os.path.join(VERIF, ".work"), exist_ok=True)
     subprocess.run(["cmake", "-S", REPO, "-B", d, "-DCARES_BUILD_TESTS=OFF", "-DCARES_BUILD_TOOLS=OFF",
                     "-DCMAKE_BUILD_TYPE=RelWithDebInfo"], stdout=subprocess.DEVNULL, stderr=subprocess.DEVNULL,
                    check=True)
@@ -182,7 +183,7 @@ def classify(props):
         if st == "SUCCESS":
             n_ok += 1
             continue
-        if d.startswith("BOUND:") or cls == "unwinding-assertion" or "unwinding assertion" in d or \
+        if ".no-body." in p.get("property", "") or d.startswith("BOUND:") or cls == "unwinding-assertion" or "unwinding assertion" in d or \
            "recursion unwinding" in d:
             bound_fail.append(p)
         else:
@@ -274,7 +275,7 @@ def native_replay(job, prop, jdir, rdir, vals, extra_defs):
     cmd = ["gcc", "-std=gnu99", "-g", "-O0", "-w", "-fsanitize=address,undefined", "-fno-sanitize-recover=all",
            "-DVP_NATIVE"] + BASE_DEFS + include_flags(prop) + job.get("defines", []) + extra_defs + \
         ["-Dharness=vp_harness_entry", h] + real + sup + [os.path.join(COMMON, "native_main.c"), "-o", exe, "-lm",
-                                                         "-lpthread"]
+                                                         "-lpthread", "-Wl,--unresolved-symbols=ignore-all"]
     with open(os.path.join(rdir, "replay_build.txt"), "w") as f:
         f.write(" ".join(cmd) + "\n")
     rc, _ = run(cmd, os.path.join(rdir, "replay_build.log"), 300, 16)
@@ -294,6 +295,8 @@ def native_replay(job, prop, jdir, rdir, vals, extra_defs):
     txt = open(log, errors="replace").read()
     if rc == 0:
         return "not-reproduced", "native run completed cleanly"
+    if "pc 0x000000000000" in txt or "address 0x000000000000 (pc 0x000000000000" in txt:
+        return "skipped", "native run reached a function that is not linked natively (CBMC-only stub)"
     if rc == 77:
         return "diverged", "native run left the assumed region (address-dependent choice)"
     return "confirmed", "native exit %d: %s" % (rc, txt[-1500:])
@@ -346,7 +349,7 @@ def run_job(prop, job, tier, kf_defs, keep):
         # group by assertion, trace the first few
         for p in rf[:2]:
             pid = p["property"]
-            rdir = os.path.join(VERIF, "replays", prop, re.sub(r"[^A-Za-z0-9_.-]", "_", name + "." + pid))
+            rdir = os.path.join(WORK if SCRATCH else VERIF, "replays", prop, re.sub(r"[^A-Za-z0-9_.-]", "_", name + "." + pid))
             shutil.rmtree(rdir, ignore_errors=True)
             os.makedirs(rdir)
             tout = os.path.join(rdir, "cbmc_trace.json")
@@ -522,8 +525,10 @@ def main():
         "wall_s": round(time.time() - t0, 1),
         "violations": nviol,
     }
-    os.makedirs(os.path.join(VERIF, "evidence"), exist_ok=True)
-    json.dump(ev, open(os.path.join(VERIF, "evidence", prop + ".json"), "w"), indent=1)
+    evdir = os.path.join(WORK if SCRATCH else VERIF, "evidence")
+    os.makedirs(evdir, exist_ok=True)
+    if not only or SCRATCH:  # a filtered run never overwrites the property's evidence
+        json.dump(ev, open(os.path.join(evdir, prop + ".json"), "w"), indent=1)
     print("%s: %d jobs, %d held, %d violations, exit %d, %.0fs" % (prop, len(main_res), len(held), nviol, exit_code,
                                                                    time.time() - t0))
     sys.exit(exit_code)
